@@ -2,6 +2,7 @@ import NGF.Proofs.Hostname
 import NGF.Proofs.Precedence
 import NGF.Proofs.NginxEval
 import NGF.Proofs.Locations
+import NGF.Proofs.Pipeline
 import NGF.Generated.RoutingFacts
 /-
 C02 — requests are routed exactly as the attached Routes prescribe: property theorems about the cores the
@@ -383,6 +384,120 @@ example : (genLocs [⟨"/coffee".toList, true⟩, ⟨"/coffee".toList, false⟩,
     = [(false, "/coffee/", 0), (true, "/coffee", 1), (false, "/", 2)] := by decide
 
 end locations
+
+/-! ### the pipeline model `Pipeline.gen` for the fragment (Model/Pipeline.lean)
+
+`gen : Scenario → Conf` follows processGateways / bindRoutesToListeners / buildServers / createLocations for HTTP
+listeners and HTTPRoutes; `nginxEvalConf` is the NGINX evaluator on the abstract `Conf`; `routeF` the Gateway API
+specification restated for the fragment. The equality `abstract(real http.conf) = gen s` is validated on every run
+(driver mode `pipeline`), as is `nginxEvalConf (gen s) q = routeF s q` on the probes of every in-fragment scenario
+with `noShadow`. Proved here: the per-stage refinements, non-interference of `gen`, and the flagship statement on the
+regions where no route is involved (`route_refines_spec_fragment_partial`). The full composition is NOT proved. -/
+section pipeline
+open NGF.Pipeline
+
+/-- Stage 1 (attachment): the accepted hostnames of `findAcceptedHostnames` stand, for a concrete request host,
+exactly for the hosts both the listener hostname and some route hostname stand for: they are the intersection. -/
+theorem attachment_is_intersection {l : Str} {rs : List Str} (hrs : rs ≠ []) (hne : ∀ r ∈ rs, r ≠ [])
+    {q : Str} (hq : NGF.Hostname.isWild q = false) :
+    (∃ h ∈ NGF.Hostname.accepted l rs, NGF.Hostname.covers h q = true) ↔
+    (NGF.Hostname.covers l q = true ∧ ∃ r ∈ rs, NGF.Hostname.covers r q = true) :=
+  accepted_iff_intersection hrs hne hq
+
+/-- Stage 2 (servers): among the generated server names NGINX picks one that stands for the host and is the most
+specific such name (exact, then longest wildcard, then the catch-all); the default server only when none does. -/
+theorem server_select_most_specific {names : List Str} {q n : Str}
+    (hq : NGF.NginxEval.isWildName q = false ∧ q ≠ NGF.NginxEval.catchAll) (hlen : q.length < 100000)
+    (h : NGF.NginxEval.selectName names q = some n) :
+    n ∈ names ∧ nameCovers n q = true ∧ ∀ m ∈ names, nameCovers m q = true → nameSpec m ≤ nameSpec n :=
+  selectName_most_specific hq hlen h
+
+theorem server_default_only_if_uncovered {names : List Str} {q : Str}
+    (hq : NGF.NginxEval.isWildName q = false ∧ q ≠ NGF.NginxEval.catchAll)
+    (h : NGF.NginxEval.selectName names q = none) : ∀ m ∈ names, nameCovers m q = false :=
+  selectName_none hq h
+
+/-- Non-interference on the model: a route that is invalid or attaches to no listener of the served Gateway (its
+parentRefs name another, an ignored or an unknown Gateway or an unknown section; its namespace is not allowed; its
+hostnames are disjoint), inserted anywhere; a Gateway of another class inserted anywhere; a younger Gateway of our
+class; another GatewayClass — none of them changes `gen s`. -/
+theorem noninterference_foreign_fragment (s : Scenario) :
+    (∀ a b x, s.routes = a ++ b → (∀ g, winner s = some g → inert g x) → gen { s with routes := a ++ x :: b } = gen s) ∧
+    (∀ a b y, s.gateways = a ++ b → (y.cls == s.cls) = false → gen { s with gateways := a ++ y :: b } = gen s) ∧
+    (∀ y g, winner s = some g → olderGw g y = true → gen { s with gateways := y :: s.gateways } = gen s) ∧
+    (∀ c : GwClass, (c.name == s.cls) = false → gen { s with classes := c :: s.classes } = gen s) := by
+  refine ⟨fun a b x hs hx => gen_insert_route_inert s a b x hs hx, ?_, ?_, ?_⟩
+  · intro a b y hs hy
+    exact gen_of_winner_eq rfl (winner_insert_foreign_gateway s a b y hs hy)
+  · intro y g hw hy
+    exact gen_of_winner_eq rfl ((winner_cons_younger_gateway s y g hw hy).trans hw.symm)
+  · intro c hc
+    exact gen_of_winner_eq rfl (winner_insert_class s c hc)
+
+/-- which routes are inert, syntactically -/
+theorem inert_when_parent_elsewhere {g : Gateway} {x : Route}
+    (h : ∀ p ∈ x.parents, (p.ns == g.ns && p.name == g.name) = false ∨
+      ∃ sn, p.sectionName = some sn ∧ ∀ l ∈ g.listeners, (sn == l.name) = false) : inert g x :=
+  inert_of_not_referring h
+
+theorem inert_when_namespace_not_allowed {g : Gateway} {x : Route} (hns : (x.ns == g.ns) = false)
+    (hsame : ∀ l ∈ g.listeners, l.fromAll = false) : inert g x :=
+  inert_of_namespace hns hsame
+
+/-- The flagship statement `nginxEvalConf (gen s) q = routeF s q`, proved on three regions: nothing is served; the
+port is used by no listener (both refused); and nobody owns the request host on the port — no valid route attached to a
+listener of the port has hostnames that meet the listener's at that host (`owned`) — where both sides answer 404. This
+last region composes attachment (`attachment_is_intersection`), the generated server list (`hostsOf`) and NGINX's
+server selection (`server_select_most_specific`). The remaining region (a server is selected, then location, then the
+njs list) is validated by execution on every run, not proved. -/
+theorem route_refines_spec_fragment_partial (s : Scenario) (q : Req) :
+    (winner s = none → nginxEvalConf (gen s) q = routeF s q) ∧
+    (∀ g, winner s = some g → g.listeners.any (·.port == q.port) = false → nginxEvalConf (gen s) q = routeF s q) ∧
+    (∀ g, winner s = some g → g.listeners.any (·.port == q.port) = true →
+      (NGF.Hostname.isWild q.host = false ∧ q.host ≠ NGF.NginxEval.catchAll) → q.host.length < 100000 →
+      (∀ r ∈ s.routes, ∀ rh ∈ r.hostnames, rh ≠ []) →
+      ((∀ l ∈ g.listeners, l.host ≠ NGF.NginxEval.catchAll) ∧ ∀ r ∈ s.routes, ∀ rh ∈ r.hostnames, rh ≠ NGF.NginxEval.catchAll) →
+      ¬ owned g s.routes q.port q.host →
+      nginxEvalConf (gen s) q = routeF s q) :=
+  ⟨refines_no_gateway s q, fun g h hp => refines_unused_port s q g h hp,
+   fun g hw hport hq hlen hne hcat hun => refines_unowned_host s q g hw hport hq hlen hne hcat hun⟩
+
+/-! non-vacuity, by evaluation (`gen` sorts and de-duplicates by well-founded recursion, which `decide` cannot unfold) -/
+
+def exGw : Gateway :=
+  { ns := "default".toList, name := "gw".toList, cls := "nginx".toList, age := 1,
+    listeners := [⟨"l0".toList, 80, "*.example.com".toList, true⟩, ⟨"l1".toList, 80, [], false⟩] }
+def exMatch (p : String) (exact : Bool) (hdr : List (Str × Str)) : Pipeline.Match :=
+  { exact := exact, path := p.toList, method := [], headers := hdr, query := [] }
+def exRoute : Route :=
+  { ns := "default".toList, name := "r".toList, age := 2, parents := [⟨"default".toList, "gw".toList, none⟩],
+    hostnames := ["cafe.example.com".toList], valid := true,
+    rules := [⟨[exMatch "/coffee" false [("version".toList, "v1".toList)], exMatch "/coffee" false []],
+                .forward [⟨"default_svc0_80".toList, 1, true⟩]⟩,
+              ⟨[exMatch "/" false []], .redirect 302 (some "https".toList) none none⟩] }
+def exForeign : Route := { exRoute with name := "x".toList, parents := [⟨"default".toList, "other-gw".toList, none⟩] }
+def exScenario : Scenario :=
+  { cls := "nginx".toList, ctlr := "ctl".toList, classes := [⟨"nginx".toList, "ctl".toList⟩],
+    gateways := [exGw], routes := [exRoute] }
+def exReq (host path : String) (hdr : List (Str × Str)) : Req :=
+  { port := 80, host := host.toList, path := path.toList, method := "GET".toList, headers := hdr, query := [] }
+
+#guard inFragment exScenario && noShadow (gen exScenario)
+#guard (gen exScenario).servers.length == 1
+#guard nginxEvalConf (gen exScenario) (exReq "cafe.example.com" "/coffee/x" [("Version".toList, "v1".toList)])
+        == .proxy [("default_svc0_80".toList, 10000)]
+#guard nginxEvalConf (gen exScenario) (exReq "cafe.example.com" "/tea" []) == .redirect 302 "https".toList "cafe.example.com".toList 443
+#guard [exReq "cafe.example.com" "/coffee" [], exReq "cafe.example.com" "/coffeex" [], exReq "x.example.com" "/" [],
+        exReq "cafe.example.com" "/" [], exReq "bar.org" "/coffee" []].all
+        fun q => nginxEvalConf (gen exScenario) q == routeF exScenario q
+#guard (gen { exScenario with routes := [exForeign, exRoute] }).servers.length == 1
+
+-- the unowned region is inhabited: nobody owns bar.org on port 80 of the example (both sides 404)
+#guard nginxEvalConf (gen exScenario) (exReq "bar.org" "/coffee" []) == .status 404
+
+example : inert exGw exForeign := inert_when_parent_elsewhere (by decide)
+
+end pipeline
 
 /-! ### regenerated facts: the source text the models mirror (NGF/Generated/RoutingFacts.lean, rewritten from the
 current /repo on every run). A changed statement breaks the expectation lemma next to the model it pins. -/
